@@ -47,10 +47,13 @@ Definition adam_step (rate decay beta1 beta2 eps : V) (epoch_iters nfails : nat)
 Definition adam_failed (epoch_iters : nat) (o : adam_state) : adam_state :=
   mkAdam (am_prev o) (av_prev o) (am_prev o) (av_prev o) (atot o - epoch_iters).
 
-(* Adagrad: _gnormsum accumulates; step = 1 / sqrt(_gnormsum) *)
+(* Adagrad: _gnormsum accumulates; step = 1 / sqrt(_gnormsum) if _gnormsum > 0 else 0 (the guard of /repo 2496788, finding C13-G1:
+   while every gradient sampled since the last reset is exactly zero the accumulator is 0 and the model stays where it is; the
+   square root is not even computed then); vpos = the test `_gnormsum > 0` *)
+Variable vpos : V -> bool.
 Definition adagrad_step (lb : option V) (gsum : V) (xs gs : list V) : list V * V :=
   let gsum' := vadd gsum (fold_right vadd v0 (map (fun g => vmul g g) gs)) in
-  let step := vdiv v1 (vsqrt gsum') in
+  let step := if vpos gsum' then vdiv v1 (vsqrt gsum') else v0 in
   (project lb (zipw (fun x g => vsub x (vmul step g)) xs gs), gsum').
 
 (* reset_state(): Adam forgets moments and step counter, Adagrad its accumulated gradient norm; SGD has nothing to forget.
